@@ -1,4 +1,11 @@
-(* C03 - attribute, index and slice edits behave like edits to a bound-argument list. *)
-From Fiddle Require Import PyBase PySlice Sig ArgStore Anchors.
+(* C03 - attribute, index and slice edits behave like edits to a bound-argument list.
+   Model: ArgStore.step (the algorithms of config.py / signatures.py on __arguments__).
+   Specification: ArgSpec.spec_step (fixed-length prefix + Python list + dict), related by ArgSpec.abs.
+   This file contains statements only; proofs live in theories/ArgStore_proofs.v. *)
+From Fiddle Require Import PyBase PySlice Sig ArgStore ArgSpec ArgStore_proofs Anchors.
 
-Example C03_placeholder : True. Proof. exact I. Qed.
+(* Invalid edits raise and leave the reported arguments unchanged (on the specification). *)
+Theorem C03_errors_frame :
+  forall sg sp o sp' e, spec_step sg sp o = (sp', OErr e) -> sp' = sp.
+Proof. exact spec_errors_frame. Qed.
+Print Assumptions C03_errors_frame.
